@@ -511,7 +511,14 @@ func c11SplitArithmetic(c *Ctx, rule string) {
 		if !ok {
 			return "", ""
 		}
-		ix, ok := ast.Unparen(sel.X).(*ast.IndexExpr)
+		base := ast.Unparen(sel.X)
+		// a cell taken into a local first: `sep := n.internalCells[n.offsets[mid]]` … `sep.key`
+		if id, isID := base.(*ast.Ident); isID {
+			if rhs, _, found := f.definedBy(f.Decl.Body, f.ObjOf(id)); found {
+				base = ast.Unparen(rhs)
+			}
+		}
+		ix, ok := base.(*ast.IndexExpr)
 		if !ok {
 			return "", ""
 		}
